@@ -113,7 +113,7 @@ def process(ctx: Ctx, cases: list[dict]) -> None:
         if c["kind"] == "doc":
             c["_xml"] = serialise(c["elem"], c["ns"])
             c["_view"] = from_et(ET.fromstring(c["_xml"]))
-            reqs.append({"op": "xml_to_dict", "elem": c["_view"], "start": -1}); idx.append(i)
+            reqs.append({"op": "xml_to_dict", "elem": c["_view"], "start": c.get("start", -1)}); idx.append(i)
         elif c["kind"] == "dict":
             reqs.append({"op": "dict_to_xml", "tag": "ROOT", "e": c["d"]["d"]}); idx.append(i)
     replies = {}
@@ -124,7 +124,8 @@ def process(ctx: Ctx, cases: list[dict]) -> None:
         if c["kind"] == "doc":
             e = c["elem"]
             ctx.case({"xml": c["_xml"]}, bool(e["children"]) or bool(e["attrs"]) or c["ns"] != "none", (c["ns"],))
-            reset_globals()
+            # node numbers come from the process-wide counter: also start it just below / at its limit (the ids wrap around)
+            reset_globals(c.get("start"))
             try:
                 sd = XmlParser().parse_string(c["_xml"], SDict())
             except Exception as ex:  # noqa: BLE001
@@ -259,7 +260,8 @@ def run(ctx: Ctx) -> None:
         if not root["children"]:
             root["children"] = [gen_elem(rng, 0)]
         root["text"] = None
-        cases.append({"kind": "doc", "ns": rng.choice(["none", "none", "default", "prefixed"]), "elem": root})
+        cases.append({"kind": "doc", "ns": rng.choice(["none", "none", "default", "prefixed"]), "elem": root,
+                      **({"start": rng.choice([999999, 999998, 999995, 999990, 999980])} if rng.random() < 0.12 else {})})
     for _ in range(ctx.n(300, 5000)):
         cases.append({"kind": "dict", "d": enc(gen_xdict(rng, rng.choice([1, 2, 3])))})
     process(ctx, cases)
